@@ -77,7 +77,8 @@ def main():
     from crosshair.util import set_debug
     if spec.get("debug"):
         set_debug(True)
-    install_format_stub()
+    if (spec.get('extra') or {}).get('format_stub', True):
+        install_format_stub()
     import importlib
     from sqv import hlib
     hlib.PARAM = spec.get("param")
